@@ -308,11 +308,34 @@ class StmtMixin:
 
     # ------------------------------------------------------------------ try
     def st_Try(self, st):
-        if st.finalbody or st.orelse:
-            raise Unsupported("try/finally/else")
+        if st.finalbody:
+            # try ... finally: the final block runs on every exit of the protected part
+            inner = ast.Try(body=st.body, handlers=st.handlers, orelse=st.orelse, finalbody=[])
+            ast.copy_location(inner, st)
+            try:
+                if st.handlers or st.orelse:
+                    self.st_Try(inner)
+                else:
+                    self.exec_block(st.body)
+            except PathEnd as pe:
+                if pe.kind == "infeasible":
+                    raise
+                self.exec_block(st.finalbody)
+                raise
+            self.exec_block(st.finalbody)
+            return
         try:
             self.exec_block(st.body)
+            if st.orelse:
+                # the else block is outside the protection of the handlers
+                try:
+                    self.exec_block(st.orelse)
+                except PathEnd as pe2:
+                    pe2.unprotected = True
+                    raise
         except PathEnd as pe:
+            if getattr(pe, "unprotected", False):
+                raise
             if pe.kind != "raise":
                 raise
             exname = pe.value[0]
